@@ -98,6 +98,57 @@ def run(ck):
                        "%s:%d" % (WRITER_FILE, line))
         ck.floor("C12-R2", "git-only keywords in the writer", n, 6)
 
+    def write_blocks(fn, line):
+        return [bb for bb, t in fn.calls() if not fn.blocks[bb]["cleanup"] and (t.get("sp") or [None])[0] == line and
+                ((callee_of(t).get("path") or "").endswith("Write::write_fmt") or (callee_of(t).get("path") or "").endswith("Write::write_all"))]
+
+    # ---- R5: every piece of metadata the patch carries is written (on all paths where it is present) -----------------
+    brk = set()
+    for sw in pt.discr_switches(hdr, lambda e, rv: (rv.get("adt") or "").endswith("ControlFlow")):
+        if "Break" in sw["edges"]:
+            brk.add(sw["edges"]["Break"])
+    writes = [(bb, t) for bb, t in hdr.calls() if not hdr.blocks[bb]["cleanup"] and
+              ((callee_of(t).get("path") or "").endswith("Write::write_fmt") or (callee_of(t).get("path") or "").endswith("Write::write_all"))]
+
+    def written_when_present(accessors, label, both=False):
+        dests = []
+        for acc in accessors:
+            cs = calls_named(hdr, "FilePatch::<'a, Line>::%s" % acc)
+            if not cs:
+                ck.violate("C12-R5", "anchor:%s() in the header writer" % acc, "the header writer never reads %s" % acc, hdr.where())
+                return
+            dests.append({t["dest"]["l"] for bb, t, c in cs})
+        alld = set().union(*dests)
+        none_edges = set()
+        nsw = 0
+        for sw in pt.discr_switches(hdr, lambda e, rv: True):
+            if (sw.get("adt") or "") != "core::option::Option":
+                continue
+            if not (df.place_trace(hdr, sw["place"]) & alld):
+                continue
+            nsw += 1
+            if "None" in sw["edges"]:
+                none_edges.add(sw["edges"]["None"])
+        wbbs = {bb for bb, t in writes if any(df.operand_trace(hdr, a) & alld for a in t["args"])}
+        r = cfg.reachable(hdr, 0, disabled=none_edges | brk, blocked=wbbs)
+        leaks = [b for b in cfg.exits(hdr) if b in r]
+        ck.require(nsw >= 1 and bool(wbbs) and not leaks, "C12-R5", "%s written whenever present" % label,
+                   "with %s present the header writer can return without writing it: the written patch loses it when parsed back" % label,
+                   hdr.where(), ok_detail="every path on which it is Some crosses a write that uses it (%d test(s), %d write(s))" % (nsw, len(wbbs)))
+    written_when_present(["old_permissions"], "the old mode")
+    written_when_present(["new_permissions"], "the new mode")
+    # rename lines under is_rename
+    gs = guards.find_bool_guards(hdr, lambda e: df.is_call(e, "::is_rename"))
+    if ck.require(len(gs) >= 1, "C12-R5", "the header writer tests is_rename", "no branch on is_rename() in the header writer", hdr.where()):
+        ren_lines = [line for text, line, kind, pieces in keywords if text.startswith("rename ")]
+        for g in gs:
+            for ln in ren_lines:
+                bbs = write_blocks(hdr, ln)
+                r = cfg.reachable(hdr, [g["true_edge"][1]], disabled=brk, blocked=set(bbs))
+                ck.require(bool(bbs) and not [b for b in cfg.exits(hdr) if b in r], "C12-R5", "rename line at %s:%d written for every rename" % (WRITER_FILE, ln),
+                           "a rename can be written without its rename from/to line", hdr.where())
+        ck.floor("C12-R5", "rename keyword lines", len(ren_lines), 2)
+
     # ---- R3 --------------------------------------------------------------------------------------------
     def items_used(fn):
         out = set()
